@@ -189,8 +189,15 @@ func genCycles(run *v.Run, r *v.Rand, tier string) {
 		} else if t.CMap == "own" {
 			t.CMap = "f4"
 		}
+		if tier == "thorough" && i%400 == 7 {
+			// the large-size regime: glyph counts up to 65535
+			t.Name = v.Pick(r, []string{"glyfbig", "glyfbig", "cffbig"})
+			t.CMap = v.Pick(r, []string{"f12", "f4", "nil"})
+		} else if tier != "thorough" && i == 5 {
+			t.Name, t.CMap = "glyfbig", "f12"
+		}
 		mode := v.Pick(r, []string{"plain", "ascii", "extreme", "extreme", "canonical", "canonical"})
-		cffFont := t.Name == "debug" || t.Name == "cffmini" || t.Name == "cffcid"
+		cffFont := t.Name == "debug" || t.Name == "cffmini" || t.Name == "cffcid" || t.Name == "cffbig"
 		c := &cycleCase{t, genFields(r, mode, cffFont)}
 		line, impl, fails, labels, err := runCycle(c)
 		if err != nil {
